@@ -269,6 +269,28 @@ trivial = empty input; distinct = distinct input contents; families: every lengt
         }
     });
 
+    // ---- the same small valid volume, scanned tens of thousands of times in one process ---------------
+    // (a long-lived service converts volumes all day: the 70,000th conversion returns like the first)
+    {
+        let mut rng = Rng::derive(seed, 6, 99);
+        let p = VolParams { pattern: ElevPattern::OneRadial, radials_per_run: (1, 1), max_gates: 2, meta_density: 0 };
+        let tiny = gen_volume(&mut rng, &p).build();
+        let n: u64 = ctx.tier.pick(70_000, 140_000);
+        par_cases(ctx, n, |i, obs| {
+            let file = File::new(tiny.clone());
+            match call(obs, "File::scan", "tiny-valid-volume-many-times", &tiny, || file.scan().map(|s| s.sweeps().len())) {
+                Some(Ok(1)) => obs.count("repeated_scans_of_one_small_volume", 1),
+                Some(other) => obs.violation("File::scan of a valid one-radial volume stops succeeding after many scans", format!("scan {}: {:?}", i + 1, other.map_err(|e| format!("{e:?}"))), json!({"scan": i + 1})),
+                None => {}
+            }
+            if i % 4096 == 0 {
+                obs.case(fnv(&i.to_le_bytes()));
+            } else {
+                obs.case_trivial();
+            }
+        });
+    }
+
     // ---- corrupted prefixes, bit flips, random ---------------------------------------------------
     let total: u64 = ctx.tier.pick(6_000, 1_500_000);
     par_cases(ctx, total, |i, obs| {
@@ -344,6 +366,27 @@ trivial = empty input; distinct = distinct input contents; families: every lengt
                                 }
                             }
                         }
+                    }
+                }
+                // ... elevation numbers at the ends of the byte (0, 255) on some radials, and, half the
+                // time, a real coverage-pattern message (1..5 cuts) in front of them
+                if rng.chance(1, 3) {
+                    for it in spec.items.iter_mut() {
+                        if let crate::volgen::StreamItem::Radial { msg, .. } = it {
+                            if rng.chance(1, 3) {
+                                msg.hdr.elev_num = *rng.pick(&[0u8, 0, 255, 26]);
+                            }
+                        }
+                    }
+                }
+                if rng.chance(1, 2) {
+                    let ncuts = rng.urange(1, 5);
+                    let vcp = enc::gen_vcp(&mut rng, ncuts);
+                    let mh = enc::MsgHeader::realistic(&mut rng, 5);
+                    let frame = enc::frame(&mh, &vcp.encode(), 0);
+                    spec.items.insert(0, crate::volgen::StreamItem::Meta(crate::props::c03::Item::Fixed { hdr: mh, bytes: frame }));
+                    for r in spec.record_starts.iter_mut().skip(1) {
+                        *r += 1;
                     }
                 }
                 (spec.build(), "valid-volume-undocumented-codes")
